@@ -602,7 +602,7 @@ def gen_theme(r):
         order = [a for a in admins if a not in skip]
         votes(p, order, 1)
 
-    theme = r.choice("ABCDEFFGG")
+    theme = r.choice("ABCDEFFGGHH")
     if theme == "A":
         P = submit(r.choice(["reg_node", "reg_role"]), 0, 0 if r.random() < 0.5 else 100)
         if blocks[-1][0]["k"] == "reg_role":
@@ -699,6 +699,34 @@ def gen_theme(r):
             others = [a for a in normals if a != x and a not in cs]
             votes(P1, others[: max(1, len(others))], 0)
             votes(P1, [0] + cs, 1)
+    elif theme == "H":
+        # two or three proposals open at once whose frozen electorates DIFFER (an admin frozen at one
+        # submission and active at another), then freeze / activate of admins that are electors of
+        # only some of them: every proposal is recounted over its OWN electorate only
+        if len(normals) >= 3:
+            strat = [[0, 0], [0, 0], [0, 0]]
+            c = r.choice(normals)
+            others = [a for a in normals if a != c]
+            F = submit("freeze", 0, c)
+            approve_all(F, skip=[c])
+            Pb = submit("reg_node", 0, 0)
+            A = submit("activate", 0, c)
+            approve_all(A, skip=[c])
+            Pc = submit(r.choice(["reg_node", "reg_role"]), 0, 1)
+            if blocks[-1][0]["k"] == "reg_role":
+                blocks[-1][0]["x"] = 100
+            if r.random() < 0.5 and len(others) >= 3:
+                d = others[-1]
+                F2 = submit("freeze", 0, d)
+                approve_all(F2, skip=[d, c])
+                Pd = submit("reg_role", 0, 101)
+            votes(Pb, others[:1], 0)
+            if r.random() < 0.5:
+                votes(Pc, others[1:2], r.randrange(2))
+            F3 = submit("freeze", 0, c)
+            approve_all(F3, skip=[c])
+            votes(Pb, [0] + others[1:], 1)
+            votes(Pc, [0] + others, r.randrange(2))
     else:
         strat = [[0, ei], [1, 0], [1, 0]]
         P = submit("reg_node", 0, 0)
